@@ -149,6 +149,9 @@ func (c *X509Certificate) UnmarshalCBORStream(r io.Reader, o DecoderOptions, fla
 		return err
 	}
 
+	if n >= MaxArrayDecodeLength {
+		return fmt.Errorf("byte array exceeds max size: %d", n)
+	}
 	der := make([]byte, n)
 	if _, err := io.ReadFull(r, der); err != nil {
 		return err
@@ -189,6 +192,9 @@ func (c *X509CertificateRequest) UnmarshalCBORStream(r io.Reader, o DecoderOptio
 		return err
 	}
 
+	if n >= MaxArrayDecodeLength {
+		return fmt.Errorf("byte array exceeds max size: %d", n)
+	}
 	der := make([]byte, n)
 	if _, err := io.ReadFull(r, der); err != nil {
 		return err
